@@ -17,7 +17,7 @@ CLAUSES = ['binding', 'readable', 'c03', 'c04', 'c18', 'c14', 'det']
 
 _CHILD = r'''
 import sys, json, hashlib
-sys.path[:0] = [VERIF_DIR, '/repo']
+sys.path[:0] = [VERIF_DIR, REPO_DIR]
 from pv.surface import print_doc
 from pv import builder
 from pydbml import PyDBML
@@ -82,7 +82,7 @@ def _exec_chunk(items):
     if sub:
         env = dict(os.environ)
         env['PYTHONHASHSEED'] = str(1 + (items[0]['tid'] % 4000))
-        p = subprocess.run([sys.executable, '-B', '-c', 'VERIF_DIR = %r\n' % core.VERIF + _CHILD], input=json.dumps(sub), stdout=subprocess.PIPE,
+        p = subprocess.run([sys.executable, '-B', '-c', 'VERIF_DIR = %r\nREPO_DIR = %r\n' % (core.VERIF, os.environ.get('VERIF_REPO', '/repo')) + _CHILD], input=json.dumps(sub), stdout=subprocess.PIPE,
                            stderr=subprocess.PIPE, env=env, text=True, timeout=600)
         if p.returncode != 0:
             raise core.Machinery('determinism child failed: %s' % p.stderr[-500:])
